@@ -50,7 +50,13 @@ def build(group, modules, nbins=8, ascent_features=("verif-hooks",)):
     return {pid: os.path.join(bd, b) for pid, b in assign.items()}, out, wall
 
 
-def run_impl(bins, lines, pid_of_line, timeout=1800):
+def _limit_mem():
+    import resource
+    cap = int(os.environ.get("VERIF_IMPL_MEM_GB", "12")) << 30
+    resource.setrlimit(resource.RLIMIT_AS, (cap, cap))
+
+
+def run_impl(bins, lines, pid_of_line, timeout=600):
     """route every line to the binary holding its program; returns outputs in line order"""
     by_bin = {}
     for i, (l, pid) in enumerate(zip(lines, pid_of_line)):
@@ -58,14 +64,24 @@ def run_impl(bins, lines, pid_of_line, timeout=1800):
     out = [None] * len(lines)
     procs = []
     for b, idxs in by_bin.items():
-        p = subprocess.Popen([b], stdin=subprocess.PIPE, stdout=subprocess.PIPE, stderr=subprocess.DEVNULL, text=True)
+        # address-space cap: a runaway program (e.g. under a seeded change) must fail on its own, not exhaust the machine
+        p = subprocess.Popen([b], stdin=subprocess.PIPE, stdout=subprocess.PIPE, stderr=subprocess.DEVNULL, text=True, preexec_fn=_limit_mem)
         procs.append((p, idxs))
     import threading
     def feed(p, idxs):
-        res, _ = p.communicate("\n".join(lines[i] for i in idxs) + "\n", timeout=timeout)
-        res = res.split("\n")
+        hung = False
+        try:
+            res, _ = p.communicate("\n".join(lines[i] for i in idxs) + "\n", timeout=timeout)
+        except subprocess.TimeoutExpired:
+            # a binary that does not finish is an outcome of the implementation (reported per line), never a crash of the check
+            hung = True
+            p.kill()
+            try: res, _ = p.communicate(timeout=30)
+            except Exception: res = ""
+        res = (res or "").split("\n")
+        if res and res[-1] == "": res.pop()
         for j, i in enumerate(idxs):
-            out[i] = res[j] if j < len(res) else "no-output(crash)"
+            out[i] = res[j] if j < len(res) else ("no-output(hang)" if hung else "no-output(crash)")
     ths = [threading.Thread(target=feed, args=pi) for pi in procs]
     for t in ths: t.start()
     for t in ths: t.join()
